@@ -201,3 +201,16 @@ theorem C05_background_bins :
     backgroundBins Generated.backgroundIndex = List.range (Generated.backgroundIndex.length + 1) :=
   Generated.background_ok
 end Prs
+
+namespace Prs
+/-- the default metric: Levenshtein on anything that is not a table (and on tables without CDR3
+columns); on TCR tables the alpha, beta or summed CDR3 Levenshtein according to the columns present -/
+theorem C05_default_metric (isTable a b : Bool) :
+    defaultMetric isTable a b =
+      (if isTable = false then MetricId.levenshtein
+       else if a = true ∧ b = true then MetricId.cdr3
+       else if a = true then MetricId.alphaCdr3
+       else if b = true then MetricId.betaCdr3
+       else MetricId.levenshtein) := by
+  cases isTable <;> cases a <;> cases b <;> rfl
+end Prs
